@@ -753,6 +753,13 @@ def urljoin(base_url, url, allow_fragments=True):
         # file name next to it.
         return base_url.split('#', 1)[0] + url
 
+    if not allow_fragments and '#' in url:
+        # The fragment is kept, but it is no part of the path: a "/../"
+        # in it must not remove segments of the path in front of it.
+        reference, sep, fragment = url.partition('#')
+        return urljoin(base_url, reference, allow_fragments=False) + \
+            sep + fragment
+
     if url.startswith('//') and len(url) > 2:
         scheme = base_url.partition(':')[0]
         if scheme:
